@@ -9,7 +9,8 @@ class C12(Check):
     model_desc = ("Model/Frame.v: io.ReadFull over a chunked stream, server readTCP, Conn.ReadMsgHeader, Conn.Read, the "
                   "serveTCPConn loop with its query limit, Conn.Write / response.Write (refusal above 65535 octets, one "
                   "Write per frame), Client.ExchangeWithConnContext for streams (ErrId) and datagrams (skip loop, receive "
-                  "buffer size, deadline); Model/PoolLts.v: labelled transition system of the UDP receive-buffer pool "
+                  "buffer size, deadline; exchange_dgram_timed: arrivals with their times, the read deadline fixed once as the "
+                  "earlier of Client.Timeout/ReadTimeout/2 s and the context's deadline); Model/PoolLts.v: labelled transition system of the UDP receive-buffer pool "
                   "(receive into a pooled buffer / decode-then-Put / drop / handle) for any number of interleaved requests")
     rule = ("model cases: streams given as recipes (frames of 0..4095 octets and 32768/65534/65535 octets, raw tails, early "
             "EOF) x chunkings (whole, octet by octet, cuts at frame boundaries +-1, split length octets, random with empty "
@@ -17,13 +18,25 @@ class C12(Check):
             "Conn.Read; Conn.Write and response.Write for sizes 0..70000; Client.ExchangeWithConn over scripted stream and "
             "datagram conns with foreign/stale/duplicate/short/undecodable/over-long replies in random order. Exhaustive: "
             "every EOF offset x every single split point of a four-frame stream (741 runs). Direct oracles restate the "
-            "property on the implementation (reference frame parser, ID rule, cross-talk checks). Non-trivial = at least "
+            "property on the implementation (reference frame parser, ID rule, cross-talk checks). Timed exchanges: paced "
+            "scripted peers (and a peer on 127.0.0.1) send a never-ending stream of foreign/stale/duplicate replies at rates "
+            "from a flood to just under the timeout, with no matching reply, a matching reply long after and long before "
+            "the deadline, for every way of configuring the deadline (Timeout, ReadTimeout, default, context earlier/later); "
+            "the exchange must end at the deadline (never before, at most 4 s after) - model cases xtimed. Kept requests: "
+            "requests whose every variable-length part (all EDNS0 option kinds incl. local/unknown codes, TXT, NULL, "
+            "unknown-type RDATA, long names, a record of every registered type) is unique per request; handlers keep them "
+            "while the server receives on (one P with forced buffer recycling, all Ps, TCP connections, real sockets), then "
+            "compare with an independent decode of what the client sent and reply from them. Non-trivial = at least "
             "one message delivered or an ok exchange; distinct by hash.")
     partial = [
         "no mixing across requests, connections or recycled buffers under real concurrency is a RUNTIME OBSERVATION: "
         "scripted UDP server with 300 queued datagrams x8, 8 concurrent scripted TCP connections x8, 8 concurrent "
         "clients x 25 requests against real UDP and TCP servers on 127.0.0.1, the decoded-request-does-not-alias-the-"
-        "buffer test and the single-P buffer-recycling-order test; the Go scheduler and kernel sockets are outside the model",
+        "buffer test, the single-P buffer-recycling-order test and the kept-request tests (handlers parked while the "
+        "receive buffer of their request is recycled); the Go scheduler and kernel sockets are outside the model",
+        "deadline behaviour in wall-clock time is a RUNTIME OBSERVATION with 4 s tolerance (verdicts are dropped when the "
+        "harness' own timers ran more than 1 s late); the theorems about exchange_dgram_timed hold for the model in which "
+        "the deadline is fixed when the request is written",
         "handler_sees_own_request is proved for the transition system of Model/PoolLts.v (every interleaving, any number "
         "of requests); that serveDNS performs decode -> Put -> handler in this order and that Msg.unpack copies what it "
         "keeps (C16) is read off the code and observed, not proved about the Go code",
